@@ -32,7 +32,8 @@ contract(
 from ethosu.vela.architecture_features import Accelerator, Block  # noqa: E402
 from ethosu.vela.api import NpuBlockTraversal  # noqa: E402
 from ethosu.vela.operation import NpuBlockType  # noqa: E402
-from ethosu.vela.weight_compressor import NpuWeightTensor, WeightRange  # noqa: E402
+from ethosu.vela.tensor import MemType  # noqa: E402
+from ethosu.vela.weight_compressor import NpuWeightTensor, WeightKey, WeightRange  # noqa: E402
 
 from pyvc.slicer import drop_any, drop_before, drop_matching  # noqa: E402
 
@@ -43,6 +44,8 @@ REGISTRY.declare_class(
     NpuWeightTensor, buffer=TList(PyInt), double_buffer_sizes=TList(PyInt), encoded_ranges=TMap(WR),
     # ghost: g_span[idx] = encoded bytes of depth slice idx (all cores); g_prev_end = end of the most recently recorded range
     g_span=TMap(PyInt), g_prev_end=PyInt, g_slice_start=PyInt, hw_traversal=TEnum(NpuBlockTraversal),
+    # fields read by create_weights (address: the allocated address, a property backed by the global TensorAddressMap)
+    mem_type=TEnum(MemType, members=list(MemType.all())), src_tensor=TOpt(TObj(NpuWeightTensor)), address=TInt(lo=0, hi=2**40),
 )
 
 
